@@ -85,6 +85,11 @@ def run(ck):
             geom = rng.choice(['rscale', 'rshift'])
             if abs(a) + abs(b_) < 1e-12:
                 continue
+        # overall unit of the matrix (e.g. pixel -> degree fits have |det| ~ 1e-10): an exact power of two, nothing
+        # in the decomposition may depend on it
+        lg = [0, 0, -17, -30, 12, -8][t % 6]
+        m = m * 2.0 ** lg
+        ck.count('matrix_unit_log2', lg)
         p = np.array([m[0, 0], m[0, 1], rng.uniform(-5, 5)], dtype=np.longdouble)
         qv = np.array([m[1, 0], m[1, 1], rng.uniform(-5, 5)], dtype=np.longdouble)
         fit = lf._build_fit(p, qv, geom)
@@ -132,8 +137,18 @@ def run(ck):
                 for k in range(min(n, G.MINOBJ[geom] + 1)):
                     pr[key][k] = max(pr[key][k], 0.5)
         xy, uv = np.array(pr['xy']), np.array(pr['uv'])
-        wxy = None if pr['wxy'] is None else np.array(pr['wxy'])
-        wuv = None if pr['wuv'] is None else np.array(pr['wuv'])
+        wdt = 'float64'
+        if t % 3 == 0:
+            # integer-typed weight arrays (counts, flags): same numbers, the statistics must not depend on the dtype
+            wdt = ['int64', 'uint8', 'int32'][(t // 3) % 3]
+            for key in ('wxy', 'wuv'):
+                if pr[key] is not None:
+                    pr[key] = [float(max(0, min(200, int(round(4 * w))))) for w in pr[key]]
+                    for k in range(min(n, G.MINOBJ[geom] + 1)):
+                        pr[key][k] = max(pr[key][k], 1.0)
+        ck.count('weight_dtype', wdt if pr['wmode'] != 'none' else 'no weights')
+        wxy = None if pr['wxy'] is None else np.array(pr['wxy']).astype(wdt)
+        wuv = None if pr['wuv'] is None else np.array(pr['wuv']).astype(wdt)
         nclip = rng.choice([0, 0, 2, 3])
         cen = None if rng.random() < 0.6 else [float(rng.randrange(-20, 20)), float(rng.randrange(-20, 20))]
         try:
